@@ -60,6 +60,8 @@ THEOREMS = [
     "Lena.C05.preKind_converts",
     "Lena.C05.construct_chain",
     "Lena.C05.constructors_only_lenaTypeError",
+    "Lena.C05.spec_preKind",
+    "Lena.C05.spec_drivers_agree",
 ]
 TRUSTED = [
     "Lean 4.33.0 kernel; axioms limited to propext, Classical.choice, Quot.sound (audited by #print axioms on every run)",
